@@ -6,7 +6,23 @@ VirtualClock) through the StampServer LTS; each family brings its own direct ora
 from harness import c12_mq, c12_stamp, c12_frac
 
 ASSUMPTIONS = sorted(set(getattr(c12_mq, 'ASSUMPTIONS', []) + getattr(c12_stamp, 'ASSUMPTIONS', []) + c12_frac.ASSUMPTIONS))
-TRUSTED_EXTRA = sorted(set(getattr(c12_mq, 'TRUSTED_EXTRA', []) + getattr(c12_stamp, 'TRUSTED_EXTRA', [])))
+TRUSTED_EXTRA = sorted(set(getattr(c12_mq, 'TRUSTED_EXTRA', []) + getattr(c12_stamp, 'TRUSTED_EXTRA', []))) + [
+    'py2lean/elem.py + elements.py (typed AST-subset translator): the argument of the one `yield self.env.timeout(...)` of Scheduler.send_packet; '
+    'the bridge theorems C12.send_delay_generated_eq_model / mq_send_delay_generated_eq_model tie it to the txTime of the two scheduler LTSs']
+BRIDGES = ['C12.send_delay_generated_eq_model', 'C12.mq_send_delay_generated_eq_model']
+HAND_MODELLED = ['Scheduler.send_packet (control flow, per-flow counters)', 'the `run` loops of the six schedulers', 'Monitor']
+_PREP = {}
+
+
+def prepare(ctx):
+    """regenerate lean/OnlVerif/Generated/SchedTx.lean (the transmission delay of `Scheduler.send_packet`: "transmits ... for exactly
+    8*size/rate" is this property's clause) from the source under $ONL_REPO; a translator failure or a bridge theorem that no
+    longer compiles is a broken obligation"""
+    from py2lean import translate, elements
+    _PREP['translated'] = elements.TRANSLATED['SchedTx']
+    _PREP['rewritten'] = translate.regenerate_all(only=('SchedTx',))
+    _PREP['diff_vs_pinned'] = translate.diff_vs_pinned('SchedTx')
+
 
 
 _CTX = []
@@ -32,6 +48,8 @@ def run(ctx):
     cov['samples'] = list(ca.get('samples', []))[:1] + list(cb.get('samples', []))[:1]
     cov['multi_queue_family'] = {k: v for k, v in ca.items() if k not in ('samples',)}
     cov['stamp_family'] = {k: v for k, v in cb.items() if k not in ('samples',)}
+    cov.update({'translated': _PREP.get('translated', []), 'generated_files_rewritten': _PREP.get('rewritten', []),
+                'generated_diff_vs_pinned': _PREP.get('diff_vs_pinned', []), 'bridge_theorems': BRIDGES, 'hand_modelled': HAND_MODELLED})
     cov['fractional_size_family_oracle_only'] = f.get('coverage', {})      # counted apart: not part of `evaluations` / the correspondence
     return {'coverage': cov,
             'disagreements': a.get('disagreements', []) + b.get('disagreements', []),
